@@ -10,9 +10,9 @@ def seqLetters : List Nat := [61, 65, 67, 77, 71, 82, 83, 86, 84, 87, 89, 72, 75
 /-- does a single op of this code advance the reference? (codes 0..8) -/
 def consumes : List Bool := [true, false, true, true, false, false, false, true, true]
 /-- does refID = -1 select the LAST reference name (shipped rule)? -/
-def oldChrom : Bool := true
+def oldChrom : Bool := false
 /-- does `n_cigar_op * 4` wrap at 2^16 (shipped rule)? -/
-def oldCig : Bool := true
+def oldCig : Bool := false
 def probePad : Nat := 1100
 def probeOffsets : List Nat := [4, 8, 9, 10, 11, 12, 13, 14, 15, 16, 17, 18, 19, 20, 21, 24, 25, 26, 27, 28, 29, 30, 31, 32, 33, 34, 35]
 /-- per incremented byte offset: (ref index, pos, name length, mapq, #cigar ops, flag, seq length, qual length) -/
